@@ -15,3 +15,6 @@ pub(crate) use chordal_info::*;
 pub(crate) use merge::*;
 pub(crate) use sparsity_pattern::*;
 pub(crate) use supernode_tree::*;
+
+#[cfg(feature = "verif")]
+pub(crate) mod verif_chordal;
